@@ -25,33 +25,55 @@ var hook atomic.Pointer[Hooks]
 // SetHook installs (or, with nil, removes) the scheduling-point callbacks.
 func SetHook(h *Hooks) { hook.Store(h) }
 
+// Epoch is advanced by the harness whenever a new bubble starts (one bubble runs at a time in a
+// process). A mutex that outlives a bubble - a package-level one - starts every epoch unlocked
+// with a channel made inside the current bubble: channels of a finished bubble cannot be used
+// from another one, and whatever a dead bubble's parked goroutines still "hold" is gone with it.
+var Epoch atomic.Uint64
+
 type Mutex struct {
-	once sync.Once
-	ch   chan struct{}
-	held atomic.Bool
+	mu    sync.Mutex // guards ch and epoch; never held while waiting
+	ch    chan struct{}
+	epoch uint64
+	held  atomic.Bool
+	since atomic.Uint64 // epoch in which the current holder locked
 }
 
-func (m *Mutex) init() { m.once.Do(func() { m.ch = make(chan struct{}, 1) }) }
+func (m *Mutex) channel() chan struct{} {
+	m.mu.Lock()
+	defer m.mu.Unlock()
+	if e := Epoch.Load(); m.ch == nil || m.epoch != e {
+		m.ch = make(chan struct{}, 1)
+		m.epoch = e
+		m.held.Store(false)
+	}
+	return m.ch
+}
 
 // Held reports whether the mutex is locked right now.
 func (m *Mutex) Held() bool { return m.held.Load() }
 
 func (m *Mutex) Lock() {
-	m.init()
+	ch := m.channel()
 	if h := hook.Load(); h != nil {
 		h.BeforeLock(m)
 	}
-	m.ch <- struct{}{}
+	ch <- struct{}{}
 	m.held.Store(true)
+	m.since.Store(Epoch.Load())
 }
 
 func (m *Mutex) Unlock() {
-	m.init()
+	ch := m.channel()
 	m.held.Store(false)
 	select {
-	case <-m.ch:
+	case <-ch:
 	default:
-		panic("syncshim: unlock of unlocked mutex")
+		if m.since.Load() == Epoch.Load() {
+			panic("syncshim: unlock of unlocked mutex")
+		}
+		// locked in an earlier epoch (a goroutine that outlived its bubble or real-time pass): the
+		// lock it held was dissolved when the epoch changed
 	}
 	if h := hook.Load(); h != nil {
 		h.AfterUnlock(m)
@@ -63,6 +85,7 @@ func (m *Mutex) Unlock() {
 // readers or one writer; a blocked Lock keeps later RLocks out; hand-over in arrival order.
 type RWMutex struct {
 	m       sync.Mutex // protects the fields below; never held while waiting
+	epoch   uint64
 	readers int
 	writer  bool
 	q       []*rwWaiter
@@ -73,8 +96,16 @@ type rwWaiter struct {
 	write bool
 }
 
+// fresh resets a lock that outlived its bubble (rw.m held); see Epoch.
+func (rw *RWMutex) fresh() {
+	if e := Epoch.Load(); rw.epoch != e {
+		rw.epoch, rw.readers, rw.writer, rw.q = e, 0, false, nil
+	}
+}
+
 func (rw *RWMutex) RLock() {
 	rw.m.Lock()
+	rw.fresh()
 	if !rw.writer && len(rw.q) == 0 {
 		rw.readers++
 		rw.m.Unlock()
@@ -99,6 +130,7 @@ func (rw *RWMutex) RUnlock() {
 
 func (rw *RWMutex) Lock() {
 	rw.m.Lock()
+	rw.fresh()
 	if !rw.writer && rw.readers == 0 && len(rw.q) == 0 {
 		rw.writer = true
 		rw.m.Unlock()
